@@ -208,6 +208,11 @@ def check_point(case):
                 for w in (-2.0, -1.0, 0.0, 1.0, 2.0):
                     if w != v and bx[k][0] <= w <= bx[k][1]:
                         others.append([w if j == k else u for j, u in enumerate(case["x"])])
+        for sc in (2.0 ** -61, 2.0 ** 61):
+            # CPython hashes doubles modulo 2^61 - 1: m*2^(e-61) and m*2^e collide
+            cand = [float(v) * sc for v in case["x"]]
+            if all(bx[k][0] <= c <= bx[k][1] for k, c in enumerate(cand)) and cand != [float(v) for v in case["x"]]:
+                others.append(cand)
         others.reverse()  # another dimension first: a value cached at the first call must not leak
         for o in others:
             obj2.f(o)
